@@ -8,6 +8,7 @@ theorem msgInv_stepM (s s' : St) (v : Variant) (h : MsgInv s) (hs : stepM s v = 
   all_goals (first
     | (msg_simple s, h; done)
     | (refine msg_mAdd _ ?_; msg_simple s, h; done)
+    | (refine msg_mAddF _ ?_; msg_simple s, h; done)
     | (refine msg_mAfterItem _ ?_; msg_simple s, h; done)
     | (refine msg_mRespawnCheck _ ?_; msg_simple s, h; done)
     | (refine msg_mDropRef _ ?_; msg_simple s, h; done)
@@ -15,6 +16,17 @@ theorem msgInv_stepM (s s' : St) (v : Variant) (h : MsgInv s) (hs : stepM s v = 
     | (exact msg_mProcess s _ h ‹_›)
     -- the dispatched work id enters the call buffer with its own task
     | (refine msg_mAdd _ ?_
+       have hm := MsgInv.m h; rw [‹s.mpc = _›] at hm
+       refine msg_plus s _ h ?_ ?_ ?_ ?_ ?_
+       · simp
+       · left; simp
+       · intro m hm'; simp at hm'
+         rcases hm' with e | rfl
+         · left; exact e
+         · right; exact ⟨hm, rfl⟩
+       · trivial
+       · first | (simpa using MsgInv.f h) | trivial)
+    | (refine msg_mAddF _ ?_
        have hm := MsgInv.m h; rw [‹s.mpc = _›] at hm
        refine msg_plus s _ h ?_ ?_ ?_ ?_ ?_
        · simp
